@@ -282,6 +282,17 @@ func runC03(a *args) error {
 			id := uuidFrom(r).String()
 			ops = []c03Op{{Kind: "insert", Id: id, Vec: genVec(r, 2)}, {Kind: "remove", Id: id}, {Kind: "snapshot"}, {Kind: "insert", Id: id, Vec: genVec(r, 2)}}
 		}
+		if a.isolate {
+			// an in-process run died (a raft goroutine panicked in a restarted replica): one child per history finds it
+			cst, crashed, tail := runIsolated("C03", c03Case{Ops: ops, CrashAt: 0}, a, h)
+			st.Evaluations++
+			if crashed {
+				st.ImplFailures = append(st.ImplFailures, implFailure{Case: h, What: "a clean stop and restart of a single-replica partition after this history killed the process: " + tail, Key: "restart-process-crash", Input: c03Case{Ops: ops, CrashAt: 0}})
+			} else if cst != nil {
+				st.ImplFailures = append(st.ImplFailures, cst.ImplFailures...)
+			}
+			continue
+		}
 		clean, err := runC03History(r, ops, 0)
 		if err != nil {
 			return err
